@@ -574,6 +574,13 @@ pub fn analyse(
                     (kind.len() as u64) % 17,
                     tx.uns as u64,
                 ]);
+                if tx.must_accept {
+                    bump("probe.fragment_judged_must_accept");
+                } else if tx.must_reject {
+                    bump("probe.fragment_judged_must_reject");
+                } else if !tx.uns {
+                    bump("probe.fragment_not_judged");
+                }
                 txs.push(tx);
             }
             H::MasterRx { src, bytes, .. } => {
